@@ -1,3 +1,5 @@
+//go:build !vsynclight
+
 // Package vsync is dropped into a scratch copy of galene by the check scripts; the
 // vinstr tool rewrites every sync.Mutex struct field of the selected packages into
 // vsync.Mutex[class].  A vsync.Mutex embeds a real sync.Mutex (the race detector's view
@@ -6,6 +8,7 @@
 //   - adds lock-order edges h -> m for every h already held by g,
 //   - perturbs the schedule (Gosched or a 1-200 us sleep) before the acquisition and
 //     after the release: exactly between critical sections, never inside one.
+//
 // A scanner goroutine looks for cycles in the wait-for graph (an actual deadlock, which
 // is stable once formed) and then dumps all goroutines and exits with status 3.
 package vsync
@@ -44,9 +47,9 @@ var mon struct {
 	holds   map[uint64][]held
 	waiting map[uint64]held
 	owner   map[uintptr]uint64
-	edges   map[[2]string][2]string  // class pair -> acquisition sites (first occurrence)
-	iedges  map[[2]uintptr]struct{}  // instance pairs
-	same    map[[2]string]bool       // class pair seen on one pair of instances in both orders
+	edges   map[[2]string][2]string // class pair -> acquisition sites (first occurrence)
+	iedges  map[[2]uintptr]struct{} // instance pairs
+	same    map[[2]string]bool      // class pair seen on one pair of instances in both orders
 	events  int64
 	classes map[string]int64
 }
@@ -136,6 +139,13 @@ func SetQuiet(q bool) {
 	}
 }
 
+var maxSleepUs atomic.Int64
+
+// SetMaxSleep sets the longest sleep (in microseconds, default 200) a perturbed lock
+// operation may be preceded by: a workload that wants to hold one party inside a narrow
+// window (between two of its lock operations) for long enough for another party to pass.
+func SetMaxSleep(us int64) { maxSleepUs.Store(us) }
+
 func perturb() {
 	p := perturbPct.Load()
 	if p == 0 {
@@ -152,7 +162,11 @@ func perturb() {
 		if x&1024 == 0 {
 			runtime.Gosched()
 		} else {
-			time.Sleep(time.Duration(1+(x>>40)%200) * time.Microsecond)
+			ms := uint64(maxSleepUs.Load())
+			if ms == 0 {
+				ms = 200
+			}
+			time.Sleep(time.Duration(1+(x>>40)%ms) * time.Microsecond)
 		}
 	}
 }
